@@ -19,6 +19,7 @@
 -/
 import Props.C13
 import Proofs.SelfReadable
+import Proofs.LineFixedPoint
 
 namespace Jl.C05
 open Jl Jl.Value Cast
@@ -141,5 +142,68 @@ theorem timestamp_number_fixed_point (ext : Ext) (l : Bytes) (e : Dyn)
     (h : exportVal ⟨genTables, ext⟩ (.cell (.num l) .timestamp .num) = .ok e) :
     ∃ n, e = .int .i64 n ∧ SelfReadable.FixedPoint ⟨genTables, ext⟩ .timestamp .num e (.num (IntText.formatInt n)) :=
   SelfReadable.timestamp_num_fixed_point ext l e h
+
+/-! ### The whole LINE, any number of columns (`Proofs/LineFixedPoint`) -/
+
+open Jl.Template Jl.JsonQuote in
+/-- C05 at line level over the regenerated tables, in the words of the tables.  Output template with
+    distinct names the escaper leaves alone, every visible column a covered pairing (a subset of
+    `Tables.selfReadable`), input columns among the output columns; any number of columns, hidden
+    columns, absent columns, undeclared members (repeated names, nested objects and arrays
+    included).  If every visible declared cell of the emitted row holds a raw value that is
+    well-typed for its descriptor (what `swallowed-cast` violates), in the property's domain (what
+    `illformed-utf8-escape` violates), with the standard-library answers its pairing needs
+    (`ExtHyp`, which also excludes `offset-24-60`), then the emitted line, read with `(to, to)`, is
+    accepted and written again byte for byte. -/
+theorem line_fixed_point (ext : Ext) (hx : JsonPrint.FloatTextOK ext) (ti to : Tmpl)
+    (line b : Bytes) (hto : (OMap.keys to).Nodup)
+    (hsan_to : ∀ k ∈ OMap.keys to, sanitize k = k)
+    (hsub : ∀ k ∈ OMap.keys ti, k ∈ OMap.keys to)
+    (hpair : ∀ k v, OMap.lookup to k = some v → Cells.format v ≠ .hidden →
+      LineFixedPoint.coveredB (Cells.format v) (Cells.rawType v) = true)
+    (h : jlLine ⟨genTables, ext⟩ ti to line = .ok (b, none))
+    (hval : ∀ r row', getRow ⟨genTables, ext⟩ ti line = .ok (r, none) →
+      createRow ⟨genTables, ext⟩ to (.val (.row (Members.ofList r))) = .ok (row', none) →
+      ∀ k v raw, OMap.lookup to k = some v → Cells.format v ≠ .hidden →
+        OMap.lookup row' k = some (.cell raw (Cells.format v) (Cells.rawType v)) →
+        SelfReadable.WellTyped (Cells.format v) (Cells.rawType v) raw ∧
+        Tables.inDomain (Cells.format v) (Cells.rawType v) raw = true ∧
+        LineFixedPoint.ExtHyp ext (Cells.format v) (Cells.rawType v) raw) :
+    (∀ k v, OMap.lookup to k = some v → Cells.format v ≠ .hidden →
+      Tables.selfReadable (Cells.format v) (Cells.rawType v) = true) ∧
+    ∃ body, b = body ++ [0x0A] ∧ jlLine ⟨genTables, ext⟩ to to body = .ok (b, none) :=
+  LineFixedPoint.gen_line_fixed_point_table ext hx ti to line b hto hsan_to hsub hpair h hval
+
+open Jl.Template Jl.JsonQuote in
+/-- Templates of `auto` / `hidden` columns without raw type (what unknown descriptors give too):
+    EVERY accepted line is emitted as a fixed point, nothing asked of the line. -/
+theorem auto_columns_fixed_point (ext : Ext) (hx : JsonPrint.FloatTextOK ext) (ti to : Tmpl)
+    (line b : Bytes) (hti : (OMap.keys ti).Nodup) (hto : (OMap.keys to).Nodup)
+    (hsan_to : ∀ k ∈ OMap.keys to, sanitize k = k)
+    (hsub : ∀ k ∈ OMap.keys ti, k ∈ OMap.keys to)
+    (hcols_to : ∀ k v, OMap.lookup to k = some v →
+      v = .cell .nil .auto .none ∨ v = .cell .nil .hidden .none)
+    (hcols_ti : ∀ k, OMap.lookup to k = some (.cell .nil .auto .none) →
+      OMap.lookup ti k = some (.cell .nil .auto .none))
+    (h : jlLine ⟨genTables, ext⟩ ti to line = .ok (b, none)) :
+    ∃ body, b = body ++ [0x0A] ∧ jlLine ⟨genTables, ext⟩ to to body = .ok (b, none) :=
+  LineFixedPoint.gen_line_fixed_point_auto_columns ext hx ti to line b hti hto hsan_to hsub hcols_to hcols_ti h
+
+open Jl.Template in
+/-- The known findings at LINE level, kernel-checked on the model of the whole pipeline:
+    `swallowed-cast` — `{"c":""}` under (no input template, output `c`: string(int)) is emitted as it
+    is and REJECTED by the second pass; `illformed-utf8-escape` — the emitted line is accepted by the
+    second pass but written again with other bytes. -/
+theorem known_findings_at_line_level (ext : Ext) :
+    (jlLine ⟨genTables, ext⟩ [] LineFixedPoint.Swallowed.tmpl LineFixedPoint.Swallowed.line =
+        .ok (LineFixedPoint.Swallowed.line ++ [0x0A], none) ∧
+     jlLine ⟨genTables, ext⟩ LineFixedPoint.Swallowed.tmpl LineFixedPoint.Swallowed.tmpl LineFixedPoint.Swallowed.line =
+        .ok ([], some .unsupportedImport)) ∧
+    (jlLine ⟨genTables, ext⟩ LineFixedPoint.IllFormed.ti LineFixedPoint.IllFormed.to LineFixedPoint.IllFormed.line =
+        .ok (LineFixedPoint.IllFormed.body1 ++ [0x0A], none) ∧
+     jlLine ⟨genTables, ext⟩ LineFixedPoint.IllFormed.to LineFixedPoint.IllFormed.to LineFixedPoint.IllFormed.body1 =
+        .ok (LineFixedPoint.IllFormed.body2 ++ [0x0A], none) ∧
+     LineFixedPoint.IllFormed.body2 ≠ LineFixedPoint.IllFormed.body1) :=
+  ⟨LineFixedPoint.Swallowed.swallowed_cast_line ext, LineFixedPoint.IllFormed.ill_formed_line ext⟩
 
 end Jl.C05
